@@ -2,10 +2,13 @@ package lib
 
 import (
 	"bufio"
+	"bytes"
 	"fmt"
+	"io"
 	"net"
 	"net/http"
 	"net/url"
+	"time"
 
 	"github.com/gorilla/websocket"
 	lime "github.com/takenet/lime-go"
@@ -69,4 +72,65 @@ func WSConns(capacity int) (cws, sws *websocket.Conn, cconn, sconn *rt.Conn) {
 func WSTransports(capacity int) (ct, st lime.Transport, cconn, sconn *rt.Conn) {
 	c, s, cc, sc := WSConns(capacity)
 	return lime.NewWebsocketTransportFromConn(c, false), lime.NewWebsocketTransportFromConn(s, false), cc, sc
+}
+
+// wsNetConn presents an upgraded WebSocket connection as a byte stream of
+// newline-terminated text messages, so that the scripted RawPeer can talk to a
+// WebSocket server end: one Write = one text message, Read yields the payload
+// of the next message followed by a newline.
+type wsNetConn struct {
+	ws  *websocket.Conn
+	raw *rt.Conn
+	buf []byte
+}
+
+func (w *wsNetConn) Read(p []byte) (int, error) {
+	if len(w.buf) == 0 {
+		_, b, err := w.ws.ReadMessage()
+		if err != nil {
+			if _, ok := err.(*websocket.CloseError); ok {
+				return 0, io.EOF
+			}
+			return 0, err
+		}
+		w.buf = append(b, '\n')
+	}
+	n := copy(p, w.buf)
+	w.buf = w.buf[n:]
+	return n, nil
+}
+
+func (w *wsNetConn) Write(b []byte) (int, error) {
+	if err := w.ws.WriteMessage(websocket.TextMessage, bytes.TrimRight(b, "\n")); err != nil {
+		return 0, err
+	}
+	return len(b), nil
+}
+func (w *wsNetConn) Close() error                       { return w.ws.Close() }
+func (w *wsNetConn) LocalAddr() net.Addr                { return w.raw.LocalAddr() }
+func (w *wsNetConn) RemoteAddr() net.Addr               { return w.raw.RemoteAddr() }
+func (w *wsNetConn) SetReadDeadline(t time.Time) error  { return w.ws.SetReadDeadline(t) }
+func (w *wsNetConn) SetWriteDeadline(t time.Time) error { return w.ws.SetWriteDeadline(t) }
+func (w *wsNetConn) SetDeadline(t time.Time) error {
+	_ = w.ws.SetReadDeadline(t)
+	return w.ws.SetWriteDeadline(t)
+}
+
+// NewRawPeerWS is a scripted peer speaking text messages over an upgraded connection.
+func NewRawPeerWS(ws *websocket.Conn, raw *rt.Conn) *RawPeer {
+	return &RawPeer{Raw: raw, Conn: &wsNetConn{ws: ws, raw: raw}, WS: true}
+}
+
+// DialWSRaw is DialWS for a scripted client: the server-side transport is queued for
+// Accept, the client's upgraded connection and raw connection are returned.
+func (l *PipeListener) DialWSRaw() (*websocket.Conn, *rt.Conn) {
+	cws, sws, c, s := WSConns(l.Cap)
+	l.Servers = append(l.Servers, s)
+	l.Clients = append(l.Clients, c)
+	l.Base = append(l.Base, s.BytesRead)
+	l.WSServers = append(l.WSServers, sws)
+	t := lime.NewWebsocketTransportFromConn(sws, false)
+	l.Transports = append(l.Transports, t)
+	l.ch <- t
+	return cws, c
 }
